@@ -13,8 +13,8 @@ For every generated program the harness (`harness dump`) is run in each variant 
        additionally outcome ok / E 0 (the c13 programs are well formed)
   c14: E contains an error of the expected kind at byte `at`; T contains a zero-width
        token of type `token` at byte `at`; outcome ok
-is checked.  Programs whose generator record carries a non-empty "known" list (tags of known
-defects of the pinned tree, e.g. F1, F6) are counted separately when they fail.
+is checked.  If a generator record carries a non-empty "known" list (tags of known defects; the current
+generator emits none since F1-F8 were repaired) its failures are counted separately.
 Exit status 1 iff there is a failure that is not attributed to a known defect.
 """
 import argparse, json, os, re, subprocess, sys, collections
